@@ -106,6 +106,10 @@ func (g *Grammar) valid() error {
 var concatInterp = ast.InterpreterFunc(func(userCtx interface{}, node parsley.NonTerminalNode) (interface{}, parsley.Error) {
 	sim.AbortPoint()
 	var sb strings.Builder
+	if userCtx != nil {
+		// the evaluation context each caller set on its own parsley.Context
+		fmt.Fprintf(&sb, "[%v]", userCtx)
+	}
 	sb.WriteString("(")
 	for _, c := range node.Children() {
 		switch x := c.(type) {
